@@ -218,7 +218,8 @@ def random_case(draw):
             'mode': draw(st.sampled_from(MODES_X)), 'which': draw(st.sampled_from(sorted(MODES_E))),
             'method': draw(st.sampled_from(METHODS)), 'mpo': draw(st.sampled_from(MAG_OPTS)),
             'lpo': draw(st.sampled_from(LOC_OPTS)), 'two_d': draw(st.booleans()),
-            'layout': draw(st.sampled_from(gens.LAYOUTS)), 'dtype': draw(st.sampled_from(['f8', 'f8', 'f8', 'f4', 'i8', 'i2']))}
+            'layout': draw(st.sampled_from(gens.LAYOUTS)), 'dtype': draw(st.sampled_from(['f8', 'f8', 'f8', 'f4', 'i8', 'i2'])),
+            'floor': draw(st.sampled_from([None, None, None, None, 1e-9, 1e-13, 1e-16]))}
 
 
 def oracle_random(case, rec):
@@ -234,9 +235,27 @@ def oracle_random(case, rec):
     if dt != 'f8' and case['mpo'] and case['mpo'].get('stat_length', 1) != 1:
         raise Discard('np.pad computes the statistic of the magnitudes (mean / median over > 1 values) in their storage dtype '
                       '(integers, float32): the padded values then depend on the dtype by numpy\'s own definition')
+    if case.get('floor') and dt == 'f8':
+        # plateaus carrying only a rounding-level ripple (what sift iterates look like once the oscillation is gone): the
+        # ripple's extrema are strict extrema all the same, and their refined locations must stay ordered
+        xf_ = np.asarray(x, dtype=float)
+        x = np.round(xf_, 1) + case['floor'] * np.random.default_rng(xf_.size).standard_normal(xf_.size)
+        rec.cls('rounding-level ripple on plateaus')
     x = gens.relayout(x, case.get('layout', 'C'))     # the routines receive x.copy() - see below - or the view itself
     rec.cls('layout=' + case.get('layout', 'C'))
     nt = max(check_extrema(emd, x, case['mode'], case['pad'], case['par'], case['lpo'], case['mpo'], rec), 0)
+    if case.get('floor') and dt == 'f8' and case['par']:
+        # refined extrema of a rounding-level ripple are, by nature, sensitive to the last bit: only the structural claims
+        # are asserted here (extrema ordered - above - and an envelope is produced, one value per sample)
+        try:
+            env = emd.sift.interp_envelope(_arg(x), mode=case['which'], interp_method=case['method'],
+                                           extrema_opts={'pad_width': max(case['pad'], 1), 'parabolic_extrema': True})
+        except Exception as e:
+            raise Violation('C05/interp_envelope/raises/%s/rounding-level-ripple' % type(e).__name__, repr(e))
+        if env is not None and (np.asarray(env).shape != (np.asarray(x).size,) or not np.all(np.isfinite(env))):
+            raise Violation('C05/interp_envelope/shape-or-nonfinite/rounding-level-ripple', '')
+        rec.cls('family=' + case['sig'].get('family', 'elementwise'))
+        return nt > 0
     nt += check_envelope(emd, x, case['which'], case['method'], max(case['pad'], 1), case['par'], case['lpo'], case['mpo'], rec,
                          sequence=True)
     if case['pad'] == 0:
